@@ -77,8 +77,10 @@ def triples (j : Json) (k : String) : List (String × String × Option Bool) :=
 def envOf (j : Json) : Env :=
   let rx := triples j "regex"
   let fm := triples j "formats"
+  let ctx := getStr j "ctx"
   { regex := fun p s => match rx.find? (fun t => t.1 == p && t.2.1 == s) with | some t => t.2.2 | none => none,
-    strFormat := fun f s => match fm.find? (fun t => t.1 == f && t.2.1 == s) with | some t => t.2.2 | none => none }
+    strFormat := fun f s => match fm.find? (fun t => t.1 == f && t.2.1 == s) with | some t => t.2.2 | none => none,
+    asreq := ctx == "asreq", asrep := ctx == "asrep", roOff := getBool j "roOff", woOff := getBool j "woOff" }
 
 end KinModel.Drv
 
